@@ -84,3 +84,9 @@ pub open spec fn elem_ok<TC: Configuration>(m: Map<LabelInput, NodeLabel>, ck: S
 pub open spec fn state_ok(m: Map<LabelInput, NodeLabel>, epoch: u64, st: ValueState) -> bool {
     exists|k: LabelInput| m.contains_key(k) && k.1 is Fresh && #[trigger] state_for(k, m[k], epoch) == st
 }
+
+impl<TC: Configuration, S: Database + 'static, V: VRFKeyStorage> Directory<TC, S, V> {
+    // the ordinary read of the epoch record (through the object cache): it proves nothing about freshness
+    #[verifier::external_body]
+    pub(crate) async fn retrieve_azks(&self) -> (r: Result<Azks, AkdError>) { unimplemented!() }
+}
